@@ -17,6 +17,13 @@
 (*   [op |-> "mmul", M (sequence of rows), a]   [op |-> "idx", ix, a]       *)
 (*   [op |-> "sum", a]  [op |-> "abs", a]  [op |-> "max" | "min", args]     *)
 (*   [op |-> "max1" | "min1", a]  (max / min over the components of a)      *)
+(*   [op |-> "div", k, a]  (division by the nonzero scalar k)                *)
+(*   [op |-> "iadd" | "isub", a, b]  [op |-> "imul" | "idiv", k, a]          *)
+(*        the in-place forms  f += u, f -= u, f *= k, f /= k  applied to the *)
+(*        object built for a: "defined if the corresponding expanded         *)
+(*        operations are defined and if they do not change the length of f". *)
+(* Values are computed in integers: EvalS(t, e, s) is s times the value, for *)
+(* any s that is a multiple of Den(t), the product of the divisors in t.     *)
 (***************************************************************************)
 EXTENDS Integers, Sequences, FiniteSets, TLC
 
@@ -56,7 +63,11 @@ RECURSIVE TLen(_, _)
 TLen(t, sz) ==
     CASE t.op = "var"   -> sz[t.v]
       [] t.op = "const" -> Len(t.c)
-      [] t.op \in {"neg", "smul", "abs"} -> TLen(t.a, sz)
+      [] t.op \in {"neg", "smul", "abs", "div", "imul", "idiv"} -> TLen(t.a, sz)
+      [] t.op \in {"iadd", "isub"} ->        \* as + and -, and the length of the left operand must not change
+            LET la == TLen(t.a, sz)  lb == TLen(t.b, sz)
+                spb == t.b.op = "const" /\ t.b.sp /\ lb = 1
+            IN  IF la = ErrLen \/ lb = ErrLen \/ (spb /\ la # 1) THEN ErrLen ELSE IF lb = la \/ lb = 1 THEN la ELSE ErrLen
       \* a scalar term is a number, a 1 by 1 DENSE matrix, or a variable / function of length 1: a sparse 1 by 1 constant is not broadcast
       [] t.op \in {"add", "sub"} ->
             LET la == TLen(t.a, sz)  lb == TLen(t.b, sz)
@@ -81,9 +92,9 @@ RECURSIVE Curv(_, _)
 Curv(t, sz) ==
     CASE t.op \in {"var", "const"} -> 0
       [] t.op = "neg"  -> Flip(Curv(t.a, sz))
-      [] t.op = "add"  -> Plus(Curv(t.a, sz), Curv(t.b, sz))
-      [] t.op = "sub"  -> Plus(Curv(t.a, sz), Flip(Curv(t.b, sz)))
-      [] t.op = "smul" -> LET c == Curv(t.a, sz) IN IF c = 0 \/ c = 9 THEN c ELSE IF t.k > 0 THEN c ELSE IF t.k < 0 THEN -c ELSE 9
+      [] t.op \in {"add", "iadd"}  -> Plus(Curv(t.a, sz), Curv(t.b, sz))
+      [] t.op \in {"sub", "isub"}  -> Plus(Curv(t.a, sz), Flip(Curv(t.b, sz)))
+      [] t.op \in {"smul", "imul", "div", "idiv"} -> LET c == Curv(t.a, sz) IN IF c = 0 \/ c = 9 THEN c ELSE IF t.k > 0 THEN c ELSE IF t.k < 0 THEN -c ELSE 9
       [] t.op = "mmul" -> LET c == Curv(t.a, sz) IN
                           IF c = 0 THEN 0
                           ELSE IF c # 9 /\ Len(t.M) = 1 /\ Len(t.M[1]) = 1       \* PWL functions: only 1 by 1 matrices (= scalars)
@@ -97,38 +108,52 @@ Curv(t, sz) ==
       [] t.op = "min1" -> IF TLen(t.a, sz) = 1 THEN Curv(t.a, sz) ELSE IF Curv(t.a, sz) \in {0, -1} THEN -1 ELSE 9
 
 Bcast(v, L) == IF Len(v) = L THEN v ELSE [i \in 1..L |-> v[1]]
-RECURSIVE Eval(_, _)
-Eval(t, e) ==
-    CASE t.op = "var"   -> e[t.v]
-      [] t.op = "const" -> t.c
-      [] t.op = "neg"   -> LET a == Eval(t.a, e) IN [i \in DOMAIN a |-> -a[i]]
-      [] t.op \in {"add", "sub"} ->
-            LET a == Eval(t.a, e)  b == Eval(t.b, e)
+Abs(k) == IF k < 0 THEN -k ELSE k
+RECURSIVE Den(_)
+Den(t) == CASE t.op \in {"var", "const"} -> 1
+            [] t.op \in {"div", "idiv"} -> Abs(t.k) * Den(t.a)
+            [] t.op \in {"add", "sub", "iadd", "isub"} -> Den(t.a) * Den(t.b)
+            [] t.op \in {"max", "min"} -> LET RECURSIVE P(_)
+                                              P(i) == IF i > Len(t.args) THEN 1 ELSE Den(t.args[i]) * P(i + 1)
+                                          IN  P(1)
+            [] OTHER -> Den(t.a)
+\* s times the value of t, for s > 0 a multiple of Den(t)
+RECURSIVE EvalS(_, _, _)
+EvalS(t, e, s) ==
+    CASE t.op = "var"   -> [i \in DOMAIN e[t.v] |-> s * e[t.v][i]]
+      [] t.op = "const" -> [i \in DOMAIN t.c |-> s * t.c[i]]
+      [] t.op = "neg"   -> LET a == EvalS(t.a, e, s) IN [i \in DOMAIN a |-> -a[i]]
+      [] t.op \in {"add", "sub", "iadd", "isub"} ->
+            LET a == EvalS(t.a, e, s)  b == EvalS(t.b, e, s)
                 L == IF Len(a) >= Len(b) THEN Len(a) ELSE Len(b)
                 x == Bcast(a, L)  y == Bcast(b, L)
-            IN  [i \in 1..L |-> IF t.op = "add" THEN x[i] + y[i] ELSE x[i] - y[i]]
-      [] t.op = "smul"  -> LET a == Eval(t.a, e) IN [i \in DOMAIN a |-> t.k * a[i]]
-      [] t.op = "mmul"  -> LET a == Eval(t.a, e) IN
+            IN  [i \in 1..L |-> IF t.op \in {"add", "iadd"} THEN x[i] + y[i] ELSE x[i] - y[i]]
+      [] t.op \in {"smul", "imul"} -> LET a == EvalS(t.a, e, s) IN [i \in DOMAIN a |-> t.k * a[i]]
+      [] t.op \in {"div", "idiv"}  -> LET a == EvalS(t.a, e, s \div Abs(t.k)) IN [i \in DOMAIN a |-> IF t.k < 0 THEN -a[i] ELSE a[i]]
+      [] t.op = "mmul"  -> LET a == EvalS(t.a, e, s) IN
                            IF Len(t.M[1]) = Len(a) THEN [r \in 1..Len(t.M) |-> SumSeq([j \in 1..Len(a) |-> t.M[r][j] * a[j]])]
                            ELSE [i \in DOMAIN a |-> t.M[1][1] * a[i]]
-      [] t.op = "idx"   -> LET a == Eval(t.a, e)  p == Positions(t.ix, Len(a)) IN [i \in DOMAIN p |-> a[p[i] + 1]]
-      [] t.op = "sum"   -> <<SumSeq(Eval(t.a, e))>>
-      [] t.op = "abs"   -> LET a == Eval(t.a, e) IN [i \in DOMAIN a |-> IF a[i] < 0 THEN -a[i] ELSE a[i]]
+      [] t.op = "idx"   -> LET a == EvalS(t.a, e, s)  p == Positions(t.ix, Len(a)) IN [i \in DOMAIN p |-> a[p[i] + 1]]
+      [] t.op = "sum"   -> <<SumSeq(EvalS(t.a, e, s))>>
+      [] t.op = "abs"   -> LET a == EvalS(t.a, e, s) IN [i \in DOMAIN a |-> IF a[i] < 0 THEN -a[i] ELSE a[i]]
       [] t.op \in {"max", "min"} ->
-            LET vs == [i \in DOMAIN t.args |-> Eval(t.args[i], e)]
+            LET vs == [i \in DOMAIN t.args |-> EvalS(t.args[i], e, s)]
                 L == MaxOf({Len(vs[i]) : i \in DOMAIN vs})
                 bs == [i \in DOMAIN vs |-> Bcast(vs[i], L)]
             IN  [k \in 1..L |-> IF t.op = "max" THEN MaxOf({bs[i][k] : i \in DOMAIN bs}) ELSE MinOf({bs[i][k] : i \in DOMAIN bs})]
-      [] t.op = "max1"  -> LET a == Eval(t.a, e) IN <<MaxOf({a[i] : i \in DOMAIN a})>>
-      [] t.op = "min1"  -> LET a == Eval(t.a, e) IN <<MinOf({a[i] : i \in DOMAIN a})>>
+      [] t.op = "max1"  -> LET a == EvalS(t.a, e, s) IN <<MaxOf({a[i] : i \in DOMAIN a})>>
+      [] t.op = "min1"  -> LET a == EvalS(t.a, e, s) IN <<MinOf({a[i] : i \in DOMAIN a})>>
+\* Den(t) times the value of t (the value itself for terms without division)
+Eval(t, e) == EvalS(t, e, Den(t))
 
 \* is the expression defined at all?  (dimensions match and the combination is convex or concave)
 RECURSIVE SubOK(_, _)
 SubOK(t, sz) ==
     /\ TLen(t, sz) # ErrLen /\ Curv(t, sz) # 9
     /\ CASE t.op \in {"var", "const"} -> TRUE
-         [] t.op \in {"neg", "smul", "abs", "mmul", "idx", "sum", "max1", "min1"} -> SubOK(t.a, sz)
-         [] t.op \in {"add", "sub"} -> SubOK(t.a, sz) /\ SubOK(t.b, sz)
+         [] t.op \in {"neg", "smul", "abs", "mmul", "idx", "sum", "max1", "min1", "imul"} -> SubOK(t.a, sz)
+         [] t.op \in {"div", "idiv"} -> t.k # 0 /\ SubOK(t.a, sz)
+         [] t.op \in {"add", "sub", "iadd", "isub"} -> SubOK(t.a, sz) /\ SubOK(t.b, sz)
          [] t.op \in {"max", "min"} -> \A i \in DOMAIN t.args : SubOK(t.args[i], sz)
 Defined(t, sz) == SubOK(t, sz)
 
